@@ -359,11 +359,16 @@ def jobs(tier):
                 continue
             if quick and kind == "noauth" and op not in ("multiget", "bulkget", "multiset"):
                 continue
-            m = (0, 2 ** 31 - 1) if op == "bulkget" else ((1, 3) if op == "bulkwalk" else (0, 0))
+            m = (2, 2) if op == "bulkget" else ((1, 3) if op == "bulkwalk" else (0, 0))
+            if op == "bulkget":
+                a = margs(rid=(77, 77), m=(0, 2 ** 31 - 1), oid2=False, lens=False)
+                a[-3], a[-2], a[-1] = Arg("oid_sel", 1, 1), Arg("oid_sel2", 4, 4), Arg("len_sel", 2, 2)
+                out.append(Job(f"msg-{kind}-bulkget-max-repetitions", make_message_harness(kind, op), a,
+                               timeout=400 if quick else 1200, mode="T", functions=mf))
             for rname, rr in (("i32", I32), ("big", BIG)):
                 if rname == "big" and (quick and op not in ("get", "bulkget")):
                     continue
-                a = margs(rid=rr, m=m, num=I32 if op == "set" else (-130, -130), oid2=False, lens=False)
+                a = margs(rid=rr, m=m, num=(-130, -130), oid2=False, lens=False)
                 # pin the table selectors: one OID pair and one length per traced job
                 a[-3] = Arg("oid_sel", 1, 1)
                 a[-2] = Arg("oid_sel2", 4, 4)
